@@ -216,11 +216,21 @@ macro_rules! uints {
     )* };
 }
 
+crate::checked_none_forms!(checked_none_limb, crypto_bigint::Limb, |l: &Vec<u64>| crypto_bigint::Limb(l[0]));
+crate::checked_none_forms!(checked_none_u64, crypto_bigint::Uint<1>, |l: &Vec<u64>| vmodel::uint::<1>(l));
+crate::checked_none_forms!(checked_none_u128, crypto_bigint::Uint<2>, |l: &Vec<u64>| vmodel::uint::<2>(l));
+crate::checked_none_forms!(checked_none_u256, crypto_bigint::Uint<4>, |l: &Vec<u64>| vmodel::uint::<4>(l));
+use crate::checked_forms::mk_limbs;
+
 pub fn subchecks(_ctx: &Ctx) -> Vec<SubCheck> {
     let mut v = vec![];
     v.push(SubCheck::new("extra/zero+one/limb", 40_000, limb_case).tape(12));
     uints!(v, 30_000; 1, 2, 4, 8);
     v.push(SubCheck::new("extra/zero+one/boxed/1..=8", 50_000, boxed_case).tape(48));
     v.push(SubCheck::new("extra/zero-like/wrapping-boxed/1..=8", 20_000, wrapping_boxed_zero_like).tape(48));
+    v.push(vmodel::SubCheck::new("extra/checked-none-all-forms/limb", 60_000, checked_none_limb).tape(24));
+    v.push(vmodel::SubCheck::new("extra/checked-none-all-forms/U64", 60_000, checked_none_u64).tape(24));
+    v.push(vmodel::SubCheck::new("extra/checked-none-all-forms/U128", 60_000, checked_none_u128).tape(24));
+    v.push(vmodel::SubCheck::new("extra/checked-none-all-forms/U256", 40_000, checked_none_u256).tape(32));
     v
 }
